@@ -210,7 +210,7 @@ def cases(tier):
     rs += rnd.sample(more, 5) if quick else more
     for sh, ax, ol in rs:
         name = f"resample[{'x'.join(map(str, sh))}->{ol};axes={ax}]"
-        out.append((name, resample_claim(sh, ax, ol), dict(logic="QF_LRA")))
+        out.append((name, resample_claim(sh, ax, ol), dict(logic="QF_NRA")))
     out.append(("resample_complex[4->2]", resample_claim((4,), (0,), (2,), kind="complex"), dict(logic="QF_LRA")))
     out.append(("resample_complex[3x2->2x4]", resample_claim((3, 2), (0, 1), (2, 4), kind="complex"), dict(logic="QF_LRA")))
     out.append(("resample_factors[4->2]", resample_claim((4,), (0,), (2,), use_factors=True), dict(logic="QF_LRA")))
@@ -218,7 +218,7 @@ def cases(tier):
     ud = [((2,), (0,), (4,)), ((4,), (0,), (8,)), ((3,), (0,), (4,)), ((4, 2), (0, 1), (5, 4)), ((3, 4), (0, 1), (4, 6)),
           ((5,), (0,), (6,)), ((6,), (0,), (7,))]
     for sh, ax, ol in (ud if not quick else ud[:5]):
-        out.append((f"updown[{'x'.join(map(str, sh))}->{ol}]", resample_claim(sh, ax, ol, updown=True), dict(logic="QF_LRA")))
+        out.append((f"updown[{'x'.join(map(str, sh))}->{ol}]", resample_claim(sh, ax, ol, updown=True), dict(logic="QF_NRA")))
     lin = [((4,), (0,), (2,)), ((3,), (0,), (4,)), ((2, 4), (0, 1), (4, 2))]
     for sh, ax, ol in lin:
         out.append((f"linear[{'x'.join(map(str, sh))}->{ol}]", linear_claim(sh, ax, ol), dict(logic="QF_NRA")))
@@ -236,7 +236,7 @@ def run(check, tier):
     check.add_functions("Dataset.bin", "Dataset.fourier_resample", "Dataset.pad", "Dataset.crop", "Dataset.copy",
                         "Dataset.from_array / setters / validate_ndinfo (symbolic calibration)")
     check.bounds.update(shapes="1-D lengths 1..7, 2-D up to 5x4 / 6x2, 3-D up to 2x3x4", factors="1..4 incl. non-dividing",
-                        out_lengths="1..8 (odd<->even, up and down)", exact_dft_lengths="1, 2, 4 (others: float64 twiddles as exact "
+                        out_lengths="1..8 (odd<->even, up and down)", exact_dft_lengths="1, 2, 3, 4, 6 (3 and 6 with the algebraic constant sqrt(3); others: float64 twiddles as exact "
                         "rationals, equalities asked with tolerance 1e-9 for contents in [-1, 1])",
                         symbolic="all array elements (real or complex) in [-1,1], origin in [-5,5], sampling in [0.1,4]")
     check.assumptions += ["floating point is modelled as exact real arithmetic", "NumPy functions behave as the symbolic library "
